@@ -185,7 +185,7 @@ class Explorer:
         if "update" in self.kinds:
             specs += update_specs(self.node, st, self.alph, self.tier, all_arg_changes=self.all_arg_changes)
         if "regenerate" in self.kinds:
-            specs += regenerate_specs(self.node, self.space.universe, self.tier)
+            specs += regenerate_specs(self.node, self.space.universe, self.tier, state=st, args_alphabet=self.alph)
         if "index" in self.kinds:
             specs += index_specs(self.node, st, self.tier)
         return specs
